@@ -1,6 +1,8 @@
 package main
 
 import (
+	"go/token"
+	"go/types"
 	"strings"
 
 	"golang.org/x/tools/go/ssa"
@@ -190,6 +192,7 @@ func checkC08(c *Check) {
 	mr := l.Func("x/deployment/types", "GroupSpec", "MatchRequirements")
 	c.Analysed(fnName(mr))
 	c.matcherShape(mr)
+	c.subsetShape()
 	c.Floor("R2", 4)
 
 	// ---- R3 update guard
@@ -420,4 +423,186 @@ func (c *Check) matcherShape(mr *ssa.Function) {
 		}
 	}
 	c.Ob("R2", "all-of loop rejects when an auditor is missing or does not cover the requirements", mr.Pos(), rej, "")
+}
+
+// subsetShape: structural conditions on types.AttributesSubsetOf ("every required attribute is matched by some
+// offered attribute") and Attribute.SubsetOf (same key and same value). Decides the quantifier structure, not
+// the truth table: one verdict per required attribute, independent of the verdicts of earlier ones.
+func (c *Check) subsetShape() {
+	l := c.L
+	fn := l.Func("types", "", "AttributesSubsetOf")
+	c.Analysed(fnName(fn))
+	var outer, inner *ssa.BasicBlock
+	for _, b := range fn.Blocks {
+		if ifi, ok := b.Instrs[len(b.Instrs)-1].(*ssa.If); ok {
+			s := Sym(ifi.Cond)
+			if strings.Contains(s, "< builtin.len(p:a)") {
+				outer = b
+			}
+			if strings.Contains(s, "< builtin.len(p:b)") {
+				inner = b
+			}
+		}
+	}
+	c.Ob("R2", "attribute subset: iterates the required list and, inside it, the offered list", fn.Pos(), outer != nil && inner != nil && outer != inner && outer.Dominates(inner), "loops over a (required) and b (offered) not found nested")
+	if outer == nil || inner == nil || outer == inner {
+		return
+	}
+	// no state is carried from one required attribute to the next: the only loop-carried values are the indices
+	carried := ""
+	for _, h := range []*ssa.BasicBlock{outer} {
+		for _, in := range h.Instrs {
+			if ph, ok := in.(*ssa.Phi); ok {
+				if bt, isB := ph.Type().Underlying().(*types.Basic); !isB || bt.Info()&types.IsInteger == 0 {
+					carried += ph.Comment + " "
+				}
+			}
+		}
+	}
+	c.Ob("R2", "attribute subset: verdict for one required attribute does not depend on earlier ones", outer.Instrs[0].Pos(), carried == "", "loop-carried state "+carried+"survives from one required attribute to the next: a match found for an earlier attribute can stand in for a later one")
+	okTrue, okFalse, okCont := true, true, true
+	nret := 0
+	subsetFact := func(fs []Atom) bool {
+		for _, a := range fs {
+			if a.Op == "true" {
+				if cv, _ := callOf(a.X); cv != nil && calleeFull(cv) == "("+akash+"/types.Attribute).SubsetOf" {
+					as := cv.Call.Args
+					if strings.HasPrefix(Sym(as[0]), "*p:a[") && strings.HasPrefix(Sym(as[1]), "*p:b[") {
+						return true
+					}
+				}
+			}
+		}
+		return false
+	}
+	edgeFacts := func(p, to *ssa.BasicBlock) []Atom {
+		fs := factsAt(p)
+		if ifi, isIf := p.Instrs[len(p.Instrs)-1].(*ssa.If); isIf && p.Succs[0] == to && p.Succs[1] != to {
+			fs = append(fs, Atom{Op: "true", X: ifi.Cond, If: ifi})
+		}
+		return fs
+	}
+	// per-iteration "found" flag: false when the scan of the offered list starts (set inside the outer loop),
+	// true only under a match
+	var flagOK func(v ssa.Value, seen map[ssa.Value]bool) bool
+	flagOK = func(v ssa.Value, seen map[ssa.Value]bool) bool {
+		ph, ok := v.(*ssa.Phi)
+		if !ok || seen[v] {
+			return ok
+		}
+		seen[v] = true
+		if ph.Block() == outer {
+			return false
+		}
+		for i, e := range ph.Edges {
+			pred := ph.Block().Preds[i]
+			switch {
+			case isConstBool(e, false):
+				if !outer.Dominates(pred) || pred == outer && false {
+					return false
+				}
+			case isConstBool(e, true):
+				if !subsetFact(edgeFacts(pred, ph.Block())) {
+					return false
+				}
+			default:
+				if !flagOK(e, seen) {
+					return false
+				}
+			}
+		}
+		return true
+	}
+	for _, b := range fn.Blocks {
+		r, isR := b.Instrs[len(b.Instrs)-1].(*ssa.Return)
+		if !isR {
+			continue
+		}
+		for _, lf := range retLeaves(r.Results[0], b, map[ssa.Value]bool{}) {
+			nret++
+			switch {
+			case isConstBool(lf.val, true):
+				ex := outer.Succs[1]
+				if !(lf.blk == ex || ex.Dominates(lf.blk)) {
+					okTrue = false
+				}
+			case isConstBool(lf.val, false):
+				ex := inner.Succs[1]
+				if !(lf.blk == ex || ex.Dominates(lf.blk)) {
+					okFalse = false
+				}
+				// and nothing but the exhausted inner loop decides it
+				for _, a := range factsAt(lf.blk) {
+					if a.If != nil && a.If.Block() != outer && a.If.Block() != inner {
+						if a.Op == "false" && flagOK(a.X, map[ssa.Value]bool{}) {
+							continue
+						}
+						okFalse = false
+					}
+				}
+			default:
+				okTrue, okFalse = false, false
+			}
+		}
+	}
+	c.Ob("R2", "attribute subset: positive only after every required attribute was matched", fn.Pos(), okTrue && nret > 0, "true is returned before the loop over the required attributes completed")
+	c.Ob("R2", "attribute subset: negative exactly when the offered list is exhausted without a match", fn.Pos(), okFalse && nret > 0, "false is not decided by the exhausted scan of the offered attributes alone")
+	// moving on to the next required attribute happens only under req.SubsetOf(attr)
+	nback := 0
+	for _, p := range outer.Preds {
+		if !outer.Dominates(p) {
+			continue
+		}
+		nback++
+		fs := edgeFacts(p, outer)
+		m := subsetFact(fs)
+		for _, a := range fs {
+			if a.Op == "true" && flagOK(a.X, map[ssa.Value]bool{}) {
+				m = true
+			}
+		}
+		if !m {
+			okCont = false
+		}
+	}
+	c.Ob("R2", "attribute subset: next required attribute only after required[i].SubsetOf(offered[j]) held", fn.Pos(), okCont && nback > 0, "the scan advances to the next required attribute without a match of the current one against an offered one")
+
+	// element relation: same key and same value
+	ef := l.Func("types", "Attribute", "SubsetOf")
+	c.Analysed(fnName(ef))
+	okEl := true
+	nt := 0
+	hasEq := func(f []Atom, field string) bool {
+		for _, a := range f {
+			if a.Op == "eq" && ((Sym(a.X) == "p:m."+field && Sym(a.Y) == "p:rhs."+field) || (Sym(a.Y) == "p:m."+field && Sym(a.X) == "p:rhs."+field)) {
+				return true
+			}
+		}
+		return false
+	}
+	for _, b := range ef.Blocks {
+		r, isR := b.Instrs[len(b.Instrs)-1].(*ssa.Return)
+		if !isR {
+			continue
+		}
+		for _, lf := range retLeaves(r.Results[0], b, map[ssa.Value]bool{}) {
+			if isConstBool(lf.val, false) {
+				continue
+			}
+			nt++
+			f := factsAt(lf.blk)
+			if isConstBool(lf.val, true) {
+				if !hasEq(f, "Key") || !hasEq(f, "Value") {
+					okEl = false
+				}
+				continue
+			}
+			// value comparison returned directly under the key equality
+			if bo, ok := lf.val.(*ssa.BinOp); ok && bo.Op == token.EQL && hasEq(f, "Key") && strings.HasSuffix(Sym(bo.X), ".Value") && strings.HasSuffix(Sym(bo.Y), ".Value") {
+				continue
+			}
+			okEl = false
+		}
+	}
+	c.Ob("R2", "attribute match: positive only for equal key and equal value", ef.Pos(), okEl && nt > 0, "Attribute.SubsetOf answers true without key and value both being equal")
 }
